@@ -120,6 +120,10 @@ def qplist(l):
     return "[" + "; ".join(qpair(p) for p in l) + "]"
 
 
+def blist(bs):
+    return "[" + "; ".join("true" if b else "false" for b in bs) + "]"
+
+
 def blit(b):
     return "true" if b else "false"
 
